@@ -46,13 +46,14 @@ Record Core (c : context) : Prop := {
   core_after : c_after_text c <> [] -> LastText (d_nodes (c_doc c));
   core_ns_start : c_ns_start_idx c <= len_N (d_ns_tree (c_doc c));
   core_doc : DocOk (c_doc c);
-  core_entities : Forall (fun e => SliceOk text (en_value e)) (c_entities c)
+  core_entities : Forall (fun e => SliceOk text (en_value e)) (c_entities c);
+  core_cur : Forall (fun a => snd (ta_range a) <> 0) (c_cur_attrs c)
 }.
 
 Lemma Core_set_doc c d' : Core c -> DocRel (c_doc c) d' -> Core (set_doc c d').
 Proof.
   clear Hvalid.
-  intros [L Ch P Aw Af Ns D En] [Rn Rt Rv Ro]. split; cbn; auto.
+  intros [L Ch P Aw Af Ns D En Cu] [Rn Rt Rv Ro]. split; cbn; auto.
   - eapply Chain_sim; eauto.
   - rewrite (NodesSim_len _ _ Rn). auto.
   - intros H. eapply LastText_sim; eauto.
@@ -116,7 +117,7 @@ Lemma Core_appended c kind r nodes' aw :
   Core (set_awaiting (set_doc c (set_nodes (c_doc c) nodes')) aw).
 Proof.
   clear Hvalid.
-  intros [L Ch P Aw Af Ns D En] Haf Hk Hs Haw. split; cbn; auto.
+  intros [L Ch P Aw Af Ns D En Cu] Haf Hk Hs Haw. split; cbn; auto.
   - eapply Chain_sim; eauto. apply Chain_app; auto.
   - intros H. rewrite Haf in H. contradiction.
   - destruct D as [T V Nn A]. split; cbn; auto.
@@ -166,8 +167,8 @@ Proof.
       refine (Core_appended c _ _ nodes' _ Hc Ea _ Hs _); [exact I|]. constructor; auto.
       rewrite (appended_len _ _ _ _ Hs). lia. }
     intros c1 (H1 & Ht & Ha & Hl). cbn. split; auto.
-    destruct H1 as [L Ch P Aw Af Ns D En]. split; cbn; auto.
-  - cbn. split; auto. destruct Hc as [L Ch P Aw Af Ns D En]. split; cbn; auto.
+    destruct H1 as [L Ch P Aw Af Ns D En Cu]. split; cbn; auto.
+  - cbn. split; auto. destruct Hc as [L Ch P Aw Af Ns D En Cu]. split; cbn; auto.
     intros _. apply Af. rewrite Ea. discriminate.
 Qed.
 
@@ -198,7 +199,7 @@ Proof.
   clear Hvalid.
   intros Hc. unfold reset_after_text.
   assert (Hset : forall c1, Core c1 -> Core (set_after_text c1 [])).
-  { intros c1 [L Ch P Aw Af Ns D En]. split; cbn; auto; intros H; contradiction. }
+  { intros c1 [L Ch P Aw Af Ns D En Cu]. split; cbn; auto; intros H; contradiction. }
   destruct (c_after_text c) as [|t0 [|t1 ts]] eqn:Ea.
   - cbn. auto.
   - cbn. auto.
@@ -235,9 +236,9 @@ Proof.
   destruct (nd_kind pnd) as [|nsi loc at_r [pa pe]| | |] eqn:Ek; try exact Hroot.
   destruct (c_ns_start_idx c =? len_N (d_ns_tree (c_doc c))) eqn:Es.
   { cbn. split; auto. split; auto.
-    pose proof (Forall_nth_N _ _ _ _ (dok_nodes _ Hd) Epnd) as Hk. cbn in Hk. rewrite Ek in Hk. exact Hk. }
+    pose proof (Forall_nth_N _ _ _ _ (dok_nodes _ Hd) Epnd) as Hk. cbn in Hk. rewrite Ek in Hk. apply Hk. }
   pose proof (Forall_nth_N _ _ _ _ (dok_nodes _ Hd) Epnd) as Hk. cbn in Hk. rewrite Ek in Hk.
-  destruct Hk as [Hk1 Hk2]. cbn [fst snd] in Hk1, Hk2.
+  destruct Hk as ([Hk1 Hk2] & _). cbn [fst snd] in Hk1, Hk2.
   eapply safeP_bind.
   { apply safe_safeP. apply resolve_ns_loop_safe; auto.
     apply N_range_lt. rewrite N2Nat.id. lia. }
@@ -254,10 +255,12 @@ Lemma resolve_attributes_safe nss c : Core c -> RangeOk (c_doc c) nss ->
   safe (resolve_attributes text nss c)
        (fun '(r, c') => Core c' /\ RangeOk (c_doc c') nss /\
                         c_after_text c' = c_after_text c /\ c_tag_name c' = c_tag_name c /\
-                        len_N (d_ns_tree (c_doc c')) = len_N (d_ns_tree (c_doc c))).
+                        len_N (d_ns_tree (c_doc c')) = len_N (d_ns_tree (c_doc c)) /\
+                        fst r <= snd r /\ snd r <= len_N (d_attrs (c_doc c'))).
 Proof.
   intros Hc Hr. unfold resolve_attributes.
-  destruct (c_cur_attrs c) as [|a l] eqn:Ea. { cbn. auto. }
+  pose proof (core_cur c Hc) as Hcur.
+  destruct (c_cur_attrs c) as [|a l] eqn:Ea. { cbn. split; [exact Hc|]. split; [exact Hr|]. repeat split; auto; lia. }
   cbv zeta. destruct (u32_max <=? _) eqn:El; [exact I|].
   eapply safe_bind; [apply resolve_attrs_loop_safe; auto; apply Hc|].
   intros d' (R & (S1 & S2 & S3) & L). cbv beta.
@@ -266,9 +269,9 @@ Proof.
   cbn.
   assert (Hc' : Core (set_doc (set_cur_attrs c []) d')).
   { apply (Core_set_doc (set_cur_attrs c [])); auto.
-    destruct Hc as [L' Ch P Aw Af Ns D En]. split; cbn; auto. }
+    destruct Hc as [L' Ch P Aw Af Ns D En Cu]. split; cbn; auto. }
   split; auto. split; [unfold RangeOk in *; cbn; rewrite S2; auto|]. split; auto. split; auto.
-  rewrite S2. reflexivity.
+  split; [rewrite S2; reflexivity|]. lia.
 Qed.
 
 (* ---- process_element ---- *)
@@ -319,19 +322,19 @@ Proof.
   intros [namespaces c1] (H1 & Hr1 & Ha1 & Ht1). cbv beta iota zeta.
   set (c1' := set_ns_start_idx c1 (len_N (d_ns_tree (c_doc c1)))).
   assert (H1' : Core c1').
-  { destruct H1 as [L Ch P Aw Af Ns D En]. split; cbn; auto. lia. }
+  { destruct H1 as [L Ch P Aw Af Ns D En Cu]. split; cbn; auto. lia. }
   eapply safeP_bind; [apply safe_safeP; apply (resolve_attributes_safe namespaces c1'); auto|].
-  intros [attributes c2] (H2 & Hr2 & Ha2 & Ht2 & Hl2). cbv beta iota.
+  intros [attributes c2] (H2 & Hr2 & Ha2 & Ht2 & Hl2 & Hat1 & Hat2). cbv beta iota.
   assert (Haf2 : c_after_text c2 = []) by (rewrite Ha2; cbn; rewrite Ha1; exact Haf).
   assert (Htn2 : c_tag_name c2 = c_tag_name c) by (rewrite Ht2; cbn; exact Ht1).
   pose proof (core_doc c2 H2) as Hd2.
   destruct e as [|prefix local|].
   - (* EOpen *)
-    eapply safeP_bind; [apply safe_safeP, get_ns_idx_by_prefix_safe; auto|]. intros tag_ns_idx _. cbv beta.
-    eapply safeP_bind; [apply safe_safeP, append_node_core; auto|].
+    eapply safeP_bind; [apply safe_safeP, get_ns_idx_by_prefix_safe; auto|]. intros tag_ns_idx Hidx. cbv beta.
+    eapply safeP_bind; [apply safe_safeP, append_node_core; auto; cbn; auto|].
     intros [new_id c3] (H3 & Ha3 & Ht3 & Hp3 & Hi3 & Hw3 & Hlt3 & (nd & Hn & Hpar & _) & _).
     cbv beta iota. cbn. split; [|congruence].
-    destruct H3 as [L Ch P Aw Af Ns D En]. split; cbn; auto.
+    destruct H3 as [L Ch P Aw Af Ns D En Cu]. split; cbn; auto.
     + rewrite app_length. cbn [length]. rewrite Hp3 in *.
       replace (length (c_parent_prefixes c2) + 1 - 1)%nat with (S (length (c_parent_prefixes c2) - 1)).
       2:{ destruct (c_parent_prefixes c2); [contradiction|cbn; lia]. }
@@ -357,7 +360,7 @@ Proof.
     destruct (removelast (c_parent_prefixes c2)) as [|q qs] eqn:Er.
     { cbn in Hrl. lia. }
     cbn. split; [|cbn; congruence].
-    destruct H2 as [L Ch P Aw Af Ns D En]. split; cbn; auto.
+    destruct H2 as [L Ch P Aw Af Ns D En Cu]. split; cbn; auto.
     + eapply Chain_sim; eauto. cbn [length] in Hrl.
       replace (length qs - 0)%nat with m by lia. exact Hcm.
     + discriminate.
@@ -365,11 +368,11 @@ Proof.
     + intros H. rewrite Haf2 in H. contradiction.
     + apply DocRel_set_nodes; auto.
   - (* EEmpty *)
-    eapply safeP_bind; [apply safe_safeP, get_ns_idx_by_prefix_safe; auto|]. intros tag_ns_idx _. cbv beta.
-    eapply safeP_bind; [apply safe_safeP, append_node_core; auto|].
+    eapply safeP_bind; [apply safe_safeP, get_ns_idx_by_prefix_safe; auto|]. intros tag_ns_idx Hidx. cbv beta.
+    eapply safeP_bind; [apply safe_safeP, append_node_core; auto; cbn; auto|].
     intros [new_id c3] (H3 & Ha3 & Ht3 & Hp3 & Hi3 & Hw3 & Hlt3 & _ & _).
     cbv beta iota. cbn. split; [|congruence].
-    destruct H3 as [L Ch P Aw Af Ns D En]. split; cbn; auto.
+    destruct H3 as [L Ch P Aw Af Ns D En Cu]. split; cbn; auto.
     apply Forall_app; split; auto.
 Qed.
 
